@@ -13,7 +13,9 @@ Producer: harness/layers_common.py.
   cset2 LID C V | cget2 LID C                 the cell attribute on a *second* grid the layer is added to as well (new)
   setcells LID V COND                         COND = - | gt:3 | lt:3 | ge:3 | le:3 | eq:3 | ne:3 | ufz
   setfrom LID H COND                          set_cells(<array held as H>, COND): an array value, one entry per cell
-  modify LID ufunc|fn OP V COND               OP = add sub mul max min and or xor (V int | none), neg not (V none)
+  modify LID ufunc|fn OP V COND               OP = add sub mul max min and or xor (V int | none), neg not (V none); a COND
+                                              and the fn form go through np.vectorize: `err Value size0` on a layer
+                                              without entries (so does a COND of setcells / setfrom)
   modcell LID C ufunc|fn OP V                 legacy modify_cell (V typed: the result is cast back into the array)
   fromdata NAME H                             PropertyLayer.from_data(NAME, <array held as H>): a free-standing layer (copy)
   grab H LID | hget H C | hset H C V | hdump H
@@ -184,9 +186,9 @@ def parseOp (dims : List Nat) (impl : Impl) (geo : Geo) : List String → Option
           -- uniform only for + - * and the logical operators)
           let uop ← parseUOp op
           if kind = "ufunc" || (kind = "fn" && uop != .max && uop != .min) then
-            pure (.modifyU (← l.toNat?) uop x (← parseCond cond))
+            pure (.modifyU (← l.toNat?) (kind == "fn") uop x (← parseCond cond))
           else none
-      | none => do pure (.modifyCells (← l.toNat?) (← parseOper kind op v) (← parseCond cond))
+      | none => do pure (.modifyCells (← l.toNat?) (kind == "fn") (← parseOper kind op v) (← parseCond cond))
   | ["modcell", l, c, kind, op, v] =>
       match parseVal v with
       | some x => do
@@ -240,7 +242,7 @@ def fmtInts (vs : List Int) : String := ",".intercalate (vs.map toString)
 
 def fmtWhy : Why → String
   | .dims => "dims" | .exists => "exists" | .clash => "clash" | .ufunc => "ufunc" | .mode => "mode" | .empty => "empty"
-  | .radius => "radius"
+  | .radius => "radius" | .size0 => "size0"
 
 def fmtErr : Err → String
   | .value w => "err Value " ++ fmtWhy w
